@@ -88,7 +88,32 @@ def plannedOf : Op Res4 → Nat
   | .create a => (a.plan.map (fun p => p.2.length)).foldl (· + ·) 0
   | _ => 0
 
+/-- two operations on different workloads started together: the implementation's post-state must be
+consistent and equal (usage, capacity, records, containers) to one of the two sequential orders -/
+def handleConcurrent (j : Json) : Json :=
+  let id := jget j "id"
+  let pre := stateOfJson (jget j "pre")
+  let post := stateOfJson (jget j "post")
+  let ja := jget (jget j "args") "a"
+  let jb := jget (jget j "args") "b"
+  let na := jstr (jget ja "op")
+  let nb := jstr (jget jb "op")
+  match opOfJson na (jget ja "args"), opOfJson nb (jget jb "args") with
+  | some a, some b =>
+    let names := (namesOf pre ++ namesOf post).eraseDups
+    let core (x y : State Res4) : List String := (stateDiff names x y).filter (fun d => d != "markers" && d != "wal")
+    let ab := after b none (after a none pre)
+    let ba := after a none (after b none pre)
+    let agree := (core ab post).isEmpty || (core ba post).isEmpty
+    let dir := if (namesOf post).any (fun n => decide ((load post n).mem > (post.usage n).mem)) then "records-exceed-usage" else "usage-exceeds-records"
+    let spec := (if consistentB pre && !consistentB post then [s!"C10:inconsistent:concurrent:{na}+{nb}:{dir}"] else []) ++
+      (match jarr (jget j "lock_viol") with | [] => [] | v :: _ => [s!"C10:usage-write-without-pod-lock:concurrent:{jstr v}"])
+    Json.mkObj [("id", id), ("agree", agree), ("model", Json.mkObj [("diff", Json.arr ((core ab post).map Json.str).toArray)]),
+      ("spec", Json.arr (spec.map Json.str).toArray), ("class", s!"concurrent:{na}+{nb}")]
+  | _, _ => Json.mkObj [("id", id), ("agree", false), ("error", "unknown op"), ("spec", Json.arr #[]), ("class", "bad")]
+
 def handle (j : Json) : Json :=
+  if jstr (jget j "op") == "concurrent" then handleConcurrent j else
   let id := jget j "id"
   let opName := jstr (jget j "op")
   let pre := stateOfJson (jget j "pre")
